@@ -186,6 +186,28 @@ func (h c13impl) asset(id string, n int) []byte {
 	return data
 }
 
+var c13replies sync.Map // id/n -> *httpbody.HttpBody shared by all calls
+
+func (h c13impl) sharedReply(id string, n int) *httpbody.HttpBody {
+	key := fmt.Sprintf("%s/%d", id, n)
+	v, _ := c13replies.LoadOrStore(key, &httpbody.HttpBody{Data: prf(id, n)})
+	return v.(*httpbody.HttpBody)
+}
+
+// checkSharedReplies is the end-of-run canary over the shared reply objects.
+func checkSharedReplies(viol func(key, what string, c any)) {
+	c13replies.Range(func(k, v any) bool {
+		hb := v.(*httpbody.HttpBody)
+		parts := strings.SplitN(k.(string), "/", 2)
+		var n int
+		fmt.Sscanf(parts[1], "%d", &n)
+		if hb.ContentType != "" || len(hb.Extensions) != 0 || !bytes.Equal(hb.Data, prf(parts[0], n)) {
+			viol("handler-owned-reply-object-modified", fmt.Sprintf("the HttpBody object the handler returns for every download of %s was written to by the library: content_type=%q, %d data bytes (the handler created it without a content type and %d bytes)", parts[0], hb.ContentType, len(hb.Data), n), nil)
+		}
+		return true
+	})
+}
+
 func (h c13impl) Unary(ctx context.Context, md protoreflect.MethodDescriptor, in proto.Message) (proto.Message, error) {
 	switch md.Name() {
 	case "Echo":
@@ -220,6 +242,11 @@ func (h c13impl) Unary(ctx context.Context, md protoreflect.MethodDescriptor, in
 		r := in.ProtoReflect()
 		id := r.Get(r.Descriptor().Fields().ByName("a")).String()
 		n := int(r.Get(r.Descriptor().Fields().ByName("n")).Int())
+		if strings.HasPrefix(id, "static-nc-") {
+			// the very same reply OBJECT for every call, without a content
+			// type (an asset table built at start-up)
+			return h.sharedReply(id, n), nil
+		}
 		if strings.HasPrefix(id, "static-") {
 			// content the handler owns and serves again and again: the
 			// very same slice goes into every reply
@@ -829,6 +856,59 @@ var lanes = []lane{
 		}
 		return ""
 	}},
+	{"httpbody/download-shared-reply-object", func(e *c13env, id string, size int, lr *rand.Rand) string {
+		k := lr.Intn(4)
+		n := []int{50, 700, 5000, 70000}[k]
+		aid := fmt.Sprintf("static-nc-%d", k)
+		var hdr http.Header
+		switch lr.Intn(4) {
+		case 0:
+			hdr = http.Header{"Accept": {"application/json"}}
+		case 1:
+			hdr = http.Header{"Accept": {"application/protobuf"}}
+		case 2:
+			hdr = http.Header{"Accept": {"application/octet-stream, */*;q=0.1"}}
+		}
+		resp, bad := serveChecked(e, wire.BodyRequest("GET", "/v1/downloadu/"+aid, fmt.Sprintf("n=%d", n), hdr, nil))
+		if bad != "" {
+			return bad
+		}
+		if resp.Code != 200 {
+			return fmt.Sprintf("status %d: %.200s", resp.Code, resp.Body)
+		}
+		body, bad := respBody(resp)
+		if bad != "" {
+			return bad
+		}
+		if !bytes.Equal(body, prf(aid, n)) {
+			return fmt.Sprintf("download of the shared reply object %s/%d returned %d bytes that are not its content", aid, n, len(body))
+		}
+		return ""
+	}},
+	{"http/json-content-type-spellings", func(e *c13env, id string, size int, lr *rand.Rand) string {
+		// the same media type spelled with parameters / other case: whether
+		// the tree accepts the spelling is not this check's business, but an
+		// accepted request must echo its own payload
+		if size > 100000 {
+			size = 100000
+		}
+		ct := []string{"application/json; charset=utf-8", "Application/JSON", "application/json;charset=UTF-8", "application/protobuf; proto=vf.Chunk", "APPLICATION/PROTOBUF"}[lr.Intn(5)]
+		msg := mkChunk(id, 9, prf(id+"/9", size))
+		var b []byte
+		if strings.Contains(strings.ToLower(ct), "json") {
+			b, _ = protojson.Marshal(msg)
+		} else {
+			b, _ = proto.Marshal(msg)
+		}
+		resp, bad := serveChecked(e, wire.NewRequest("POST", "/v1/echo", "", http.Header{"Content-Type": {ct}, "Accept": {"application/json"}}, slowBody(b, lr), int64(len(b))))
+		if bad != "" {
+			return bad
+		}
+		if resp.Code != 200 {
+			return "" // spelling not accepted
+		}
+		return checkEchoJSON(resp.Body, id, 9, size)
+	}},
 	{"socket/grpc-unary", func(e *c13env, id string, size int, lr *rand.Rand) string {
 		ctx, cancel := context.WithTimeout(context.Background(), 30*time.Second)
 		defer cancel()
@@ -1220,6 +1300,7 @@ func RunC13(r *mon.Run) {
 	// call's response
 	serverMD := metadata.Pairs("x-vf-server", "verif", "x-vf-build-bin", "\x00\x01\x02")
 	serverMDWant := serverMD.Copy()
+	defer checkSharedReplies(viol)
 	defer func() {
 		if !reflect.DeepEqual(map[string][]string(serverMD), map[string][]string(serverMDWant)) {
 			viol("interceptor-owned-metadata-modified", fmt.Sprintf("the metadata object the interceptors pass to SetHeader on every call was written to: now %d keys %v", len(serverMD), keysOf(serverMD)), nil)
